@@ -157,6 +157,8 @@ def run_c07(ctx):
                 top = q["item"]["count"] <= 1 or h < 3
             else:
                 top = q["kind"] in ("rename", "seq") or (q["kind"] != "acct" and q.get("path") == [-1]) or h < 4
+                if q.get("sp", 0) != 0 and q["kind"] in ("newfolder", "upload", "list", "alias", "upfolder", "dlfolder"):
+                    top = h < 3                  # (non-canonical root spelling: the kinds with side files are all kept)
                 if q["kind"] == "acct":          # (account creation hashes a password at full cost: the slowest requests)
                     top = q["occ"] == 0 and (h < 6 or q.get("tmp") == 1)
             if top:
